@@ -27,6 +27,10 @@ class Unsupported(Exception):
 class Token:
     """An opaque abstract value (a cached value, a result component, a system object, ...)."""
 
+    def __deepcopy__(self, memo):
+        return self
+
+
     def __init__(self, name: str, **attrs):
         self._name = name
         self._attrs = attrs
@@ -40,6 +44,10 @@ class Token:
 class Obj:
     """An abstract object with a fixed table of attributes."""
 
+    def __deepcopy__(self, memo):
+        return self
+
+
     def __init__(self, name: str, **attrs):
         object.__setattr__(self, "_name", name)
         object.__setattr__(self, "_attrs", dict(attrs))
@@ -50,6 +58,10 @@ class Obj:
 
 class Stub:
     """An abstract callable (the wrapped method): counts its calls and returns the scenario's result."""
+
+    def __deepcopy__(self, memo):
+        return self
+
 
     def __init__(self, name: str, result):
         self.name = name
@@ -82,6 +94,10 @@ class _Continue(Exception):
 
 
 class Closure:
+
+    def __deepcopy__(self, memo):
+        return self
+
     def __init__(self, node, env, interp):
         self.node = node
         self.env = env
@@ -89,6 +105,55 @@ class Closure:
 
     def __repr__(self):
         return f"<closure {self.node.name if hasattr(self.node, 'name') else 'lambda'}>"
+
+
+class ClassObj:
+    """An abstract class: a table of methods (closures) and class attributes; single inheritance from object."""
+
+    def __deepcopy__(self, memo):
+        return self
+
+
+    def __init__(self, name: str, attrs: dict):
+        self.name = name
+        self.attrs = attrs
+
+    def __repr__(self):
+        return f"<class {self.name}>"
+
+
+class Instance:
+    """An instance of a ClassObj: an identity plus a real attribute dictionary."""
+
+    def __init__(self, cls: ClassObj):
+        object.__setattr__(self, "cls", cls)
+        object.__setattr__(self, "dict", {})
+
+    def __repr__(self):
+        return f"<{self.cls.name} object>"
+
+    def __deepcopy__(self, memo):
+        import copy as _copy
+
+        new = Instance(self.cls)
+        memo[id(self)] = new
+        object.__setattr__(new, "dict", _copy.deepcopy(self.dict, memo))
+        return new
+
+
+class BoundMethod:
+
+    def __deepcopy__(self, memo):
+        return self
+
+    def __init__(self, fn, inst):
+        self.fn = fn
+        self.inst = inst
+
+
+class SuperProxy:
+    def __init__(self, inst):
+        self.inst = inst
 
 
 class Env:
@@ -117,7 +182,7 @@ EXC_PARENTS = {
     "StopIteration": ("StopIteration", "Exception", "BaseException"),
 }
 
-TYPE_NAMES = {"tuple": tuple, "list": list, "dict": dict, "set": set, "str": str, "int": int, "bool": bool, "frozenset": frozenset}
+TYPE_NAMES = {"Counter": Counter, "tuple": tuple, "list": list, "dict": dict, "set": set, "str": str, "int": int, "bool": bool, "frozenset": frozenset}
 
 SAFE_METHODS = {
     dict: {"get", "items", "keys", "values", "update", "setdefault", "pop", "copy", "clear", "__contains__", "__setitem__", "__getitem__"},
@@ -145,6 +210,10 @@ class Interp:
             return fn.result
         if isinstance(fn, Closure):
             return self._call_closure(fn, list(args), dict(kwargs))
+        if isinstance(fn, BoundMethod):
+            return self.call(fn.fn, [fn.inst, *args], kwargs)
+        if isinstance(fn, ClassObj):
+            return self.instantiate(fn, args, kwargs)
         if callable(fn) and getattr(fn, "_absexec_builtin", False):
             return fn(*args, **kwargs)
         raise Unsupported(f"call of {fn!r}")
@@ -186,6 +255,25 @@ class Interp:
         except _Return as r:
             return r.value
         return None
+
+    def instantiate(self, cls: ClassObj, args, kwargs, init=True):
+        inst = Instance(cls)
+        if init and "__init__" in cls.attrs:
+            self.call(cls.attrs["__init__"], [inst, *args], kwargs)
+        elif init and (args or kwargs):
+            raise PyRaise("TypeError")
+        return inst
+
+    def set_attribute(self, o, name, v):
+        if isinstance(o, Instance):
+            if "__setattr__" in o.cls.attrs:
+                self.call(o.cls.attrs["__setattr__"], [o, name, v])
+            else:
+                o.dict[name] = v
+        elif isinstance(o, Obj):
+            o._attrs[name] = v
+        else:
+            raise Unsupported("attribute store on non-object")
 
     # ------------------------------------------------------------------ statements
     def run(self, stmts, env):
@@ -249,6 +337,25 @@ class Interp:
             raise _Continue
         elif isinstance(st, (ast.FunctionDef,)):
             env.set(st.name, Closure(st, env, self))
+        elif isinstance(st, ast.ClassDef):
+            cenv = Env(env)
+            for x in st.body:
+                if isinstance(x, ast.FunctionDef):
+                    fn = Closure(x, env, self)
+                    fn.defining_class = st.name
+                    if any(isinstance(d, ast.Name) and d.id == "property" for d in x.decorator_list):
+                        fn.is_property = True
+                    cenv.set(x.name, fn)
+                elif isinstance(x, ast.Expr) and isinstance(x.value, ast.Constant):
+                    continue
+                elif isinstance(x, (ast.Assign, ast.AnnAssign)):
+                    try:
+                        self.stmt(x, cenv)
+                    except Unsupported:
+                        continue
+                else:
+                    raise Unsupported(f"class body statement {type(x).__name__}")
+            env.set(st.name, ClassObj(st.name, cenv.vars))
         elif isinstance(st, ast.Raise):
             name = "Exception"
             if st.exc is not None:
@@ -332,17 +439,13 @@ class Interp:
             except (IndexError, TypeError):
                 raise PyRaise("IndexError", t) from None
         elif isinstance(t, ast.Attribute):
-            o = self.ev(t.value, env)
-            if isinstance(o, Obj):
-                o._attrs[t.attr] = v
-            else:
-                raise Unsupported("attribute store on non-object")
+            self.set_attribute(self.ev(t.value, env), t.attr, v)
         else:
             raise Unsupported(f"assignment target {type(t).__name__}")
 
     # ------------------------------------------------------------------ expressions
     def truth(self, v):
-        if isinstance(v, (Token, Obj, Stub, Closure)):
+        if isinstance(v, (Token, Obj, Stub, Closure, Instance, ClassObj, BoundMethod)):
             return True
         if isinstance(v, (bool, int, str, tuple, list, dict, set, frozenset, type(None))):
             return bool(v)
@@ -525,7 +628,7 @@ class Interp:
         if isinstance(op, ast.NotIn):
             return not self._contains(b, a)
         if isinstance(op, (ast.Eq, ast.NotEq)):
-            r = (a is b) if isinstance(a, (Token, Obj, Stub)) or isinstance(b, (Token, Obj, Stub)) else a == b
+            r = (a is b) if isinstance(a, (Token, Obj, Stub, Instance, ClassObj)) or isinstance(b, (Token, Obj, Stub, Instance, ClassObj)) else a == b
             return r if isinstance(op, ast.Eq) else not r
         if isinstance(a, (int, str, tuple, list)) and type(a) is type(b) and not isinstance(a, bool) or (isinstance(a, int) and isinstance(b, int)):
             try:
@@ -535,6 +638,8 @@ class Interp:
         raise Unsupported("ordering of abstract values")
 
     def _contains(self, c, x):
+        if isinstance(c, Instance) and "__contains__" in c.cls.attrs:
+            return self.truth(self.call(c.cls.attrs["__contains__"], [c, x]))
         if isinstance(c, (dict, set, frozenset, list, tuple, str)):
             try:
                 return x in c
@@ -545,6 +650,42 @@ class Interp:
         raise Unsupported(f"membership in {type(c).__name__}")
 
     def getattr(self, o, name):
+        if isinstance(o, Instance):
+            if name == "__dict__":
+                return o.dict
+            if name == "__class__":
+                return o.cls
+            if name in o.dict:
+                return o.dict[name]
+            if name in o.cls.attrs:
+                v = o.cls.attrs[name]
+                if isinstance(v, Closure):
+                    if getattr(v, "is_property", False):
+                        return self.call(v, [o])
+                    return BoundMethod(v, o)
+                return v
+            if "__getattr__" in o.cls.attrs:
+                return self.call(o.cls.attrs["__getattr__"], [o, name])
+            raise PyRaise("AttributeError")
+        if isinstance(o, ClassObj):
+            if name in ("__name__", "__qualname__"):
+                return o.name
+            if name in o.attrs:
+                return o.attrs[name]
+            raise PyRaise("AttributeError")
+        if isinstance(o, SuperProxy):
+            inst = o.inst
+            if name == "__setattr__":
+                return _bound(lambda nm, v: inst.dict.__setitem__(nm, v))
+            if name == "__getattribute__":
+                return _bound(lambda nm: self.getattr_raw(inst, nm))
+            if name == "__init__":
+                return _bound(lambda *a, **k: None)
+            raise Unsupported(f"super().{name}")
+        if isinstance(o, BoundMethod):
+            if name in ("__name__", "__qualname__"):
+                return o.fn.node.name
+            raise Unsupported(f"attribute {name} of bound method")
         if isinstance(o, Obj):
             if name in o._attrs:
                 return o._attrs[name]
@@ -556,6 +697,8 @@ class Interp:
         if isinstance(o, Token):
             if name in o._attrs:
                 return o._attrs[name]
+            if name == "copy":
+                return _bound(lambda: BUILTINS["copy_copy"](o))
             raise Unsupported(f"attribute {name} of token {o!r}")
         if isinstance(o, Closure):
             if name in ("__name__", "__qualname__"):
@@ -568,7 +711,25 @@ class Interp:
             return _bound(dict.fromkeys)
         raise Unsupported(f"attribute {name} of {type(o).__name__}")
 
+    def getattr_raw(self, inst, name):
+        if name in inst.dict:
+            return inst.dict[name]
+        if name == "__dict__":
+            return inst.dict
+        raise PyRaise("AttributeError")
+
     def ev_call(self, e: ast.Call, env):
+        if isinstance(e.func, ast.Name) and e.func.id == "super" and not e.args:
+            try:
+                env.lookup("super")
+            except Unsupported:
+                # zero-argument super(): the instance is the first parameter of the enclosing method
+                ee = env
+                while ee is not None and "self" not in ee.vars:
+                    ee = ee.parent
+                if ee is None:
+                    raise Unsupported("super() outside a method") from None
+                return SuperProxy(ee.vars["self"])
         fn = self.ev(e.func, env)
         args = self._elts(e.args, env)
         kwargs = {}
@@ -587,6 +748,12 @@ class Interp:
                     d.update(a0 if isinstance(a0, dict) else [tuple(self.iterate(p)) for p in self.iterate(a0)])
                 d.update(kwargs)
                 return d
+            if fn is Counter:
+                if not args or args[0] is None:
+                    return Counter()
+                if isinstance(args[0], dict):
+                    return Counter(args[0])
+                raise Unsupported("Counter of an abstract value")
             if fn is str and args:
                 return str(args[0])
             if fn is bool and args:
@@ -643,9 +810,15 @@ def _mk_builtins():
     @_builtin
     def _isinstance(x, tp):
         tps = tp if isinstance(tp, tuple) else (tp,)
+        if any(isinstance(t, ClassObj) for t in tps):
+            if isinstance(x, Instance) and any(t is x.cls for t in tps):
+                return True
+            tps = tuple(t for t in tps if not isinstance(t, ClassObj))
+            if not tps:
+                return False
         if not all(isinstance(t, type) for t in tps):
             raise Unsupported("isinstance against an abstract type")
-        return isinstance(x, tps) and not isinstance(x, (Token, Obj, Stub, Closure))
+        return isinstance(x, tps) and not isinstance(x, (Token, Obj, Stub, Closure, Instance))
 
     @_builtin
     def _zip(*its, strict=False):
@@ -680,6 +853,8 @@ def _mk_builtins():
 
     @_builtin
     def _type(x):
+        if isinstance(x, Instance):
+            return x.cls
         if isinstance(x, Obj) and "__class__" in x._attrs:
             return x._attrs["__class__"]
         if isinstance(x, (tuple, list, dict, set, str, int)):
@@ -757,6 +932,38 @@ def _mk_builtins():
             return f
 
         return deco
+
+    @_builtin
+    def _callable(x):
+        if isinstance(x, (Closure, Stub, BoundMethod, ClassObj)):
+            return True
+        if isinstance(x, Token):
+            return bool(x._attrs.get("callable", False))
+        return False
+
+    @_builtin
+    def _counter(x=None):
+        if x is None:
+            return Counter()
+        if isinstance(x, dict):
+            return Counter(x)
+        raise Unsupported("Counter of an abstract value")
+
+    @_builtin
+    def _copy(x):
+        if isinstance(x, Token):
+            return Token(f"copy({x._name})", **{**x._attrs, "value_of": x._attrs.get("value_of", x)})
+        if isinstance(x, (dict, list, set)):
+            return x.copy()
+        if isinstance(x, (int, str, tuple, frozenset, type(None), bool)):
+            return x
+        raise Unsupported(f"copy of {type(x).__name__}")
+
+    @_builtin
+    def _setattr(o, name, v):
+        raise Unsupported("setattr()")
+
+    b.update(callable=_callable, copy_copy=_copy)
 
     @_builtin
     def _islice(it, *a):
